@@ -1,8 +1,8 @@
 package drivers
 
 import (
-	"fmt"
 	"encoding/json"
+	"fmt"
 	"net"
 	"runtime"
 	"sync"
